@@ -1205,10 +1205,18 @@ def _list_decorators() -> Dict[str, Callable[[_FN], _FN]]:
         _tidy(clear)
         return clear
 
-    # __imul__ : not wrapping this.  all members of the collection are already
-    # present, so no need to fire appends... wrapping it with an explicit
-    # decorator is still possible, so events on *= can be had if they're
-    # desired.  hard to imagine a use case for __imul__, though.
+    def __imul__(fn):
+        def __imul__(self, n):
+            # for n >= 1 all members of the collection are already
+            # present, so no need to fire appends.  for n <= 0 the list is
+            # emptied: fire the remove events as clear() does.
+            if n <= 0:
+                self.clear()
+                return self
+            return fn(self, n)
+
+        _tidy(__imul__)
+        return __imul__
 
     l = locals().copy()
     l.pop("_tidy")
